@@ -219,6 +219,20 @@ Section WBlk.
       + rewrite IH; [reflexivity | exact Hr | exact Hir | exact Hd' | exact Hst | exact Hmd].
       + rewrite IH; [reflexivity | exact Hr | exact Hir | exact Hd' | exact Hst | exact Hmd].
   Qed.
+  (* a block whose statement is disabled on this difficulty: only the markers act *)
+  Lemma wblk_off t mask : runs dsel mask = false ->
+    forall code st cmp, Forall (at_time t mask) code -> p_time st = t ->
+    wblk code Exec st cmp = Ok (Exec, set_mem st (seek_mem code (p_mem st)), cmp).
+  Proof.
+    intros Hoff. induction code as [|x code IH]; intros st cmp Ht Hst; cbn [LowerProg.wblk LowerShape.seek_mem].
+    - rewrite set_mem_id. reflexivity.
+    - pose proof (Forall_inv Ht) as Hx0. pose proof (Forall_inv_tail Ht) as Hr.
+      destruct x as [t' k i|t' l'|d ty0|d]; cbn [LowerProg.wblk LowerShape.seek_mem].
+      + cbn [at_time] in Hx0. destruct Hx0; subst t' k. rewrite wait_at by exact Hst. rewrite Hoff. cbn [negb]. apply IH; assumption.
+      + cbn [at_time] in Hx0. subst t'. rewrite wait_at by exact Hst. apply IH; assumption.
+      + rewrite IH; [reflexivity | exact Hr | exact Hst].
+      + rewrite IH; [reflexivity | exact Hr | exact Hst].
+  Qed.
 End WBlk.
 
 (* ---------------- one statement ---------------- *)
@@ -507,13 +521,13 @@ Section Sim.
     runs dsel mask = true ->
     lower_stmt t mask fuel stmt s = Ok (c1, s1) -> wf_stmt n0 stmt ->
     (n0 <= g s)%nat -> te_agree n0 [] (te s) ->
-    fresh (p_mem st) (g s) -> p_time st <= t ->
+    fresh (p_mem st) (g s) -> p_time st <= t -> (is_silent stmt = true -> p_time st = t) ->
     stmt_nonan T libm rty lty diff stmt (p_mem (wait t st)) = true ->
     sstep stmt (p_mem (wait t st)) = Ok (m', j, lg) ->
     (forall cmp, exists c', wblk c1 Exec st cmp = Ok (mode_of j, logged lg (set_mem (wait t st) m'), c')) /\
     (g s <= g s1)%nat /\ te_agree (g s) (te s) (te s1) /\ fresh m' (g s1).
   Proof.
-    intros Hr Hl Hwf Hn Ha Hfr Hle Hnn Hs.
+    intros Hr Hl Hwf Hn Ha Hfr Hle Hsil Hnn Hs.
     destruct stmt as [v aop e|ty0 vars|k c l jt|l jt|l|opc args|d|e|]; cbn [wf_stmt] in Hwf; try contradiction;
       cbn [Lower.lower_stmt] in Hl.
     - (* SAssign *)
@@ -620,31 +634,47 @@ Section Sim.
     - inversion Hs.
   Qed.
 
+  Notation sseek := (sseek lty).
+
   (* what the code of one statement looks like from outside *)
   Lemma stmt_shape n0 t mask fuel stmt s c1 s1 :
     lower_stmt t mask fuel stmt s = Ok (c1, s1) -> wf_stmt n0 stmt -> te_agree n0 [] (te s) ->
-    (g s <= g s1)%nat /\ te_agree (g s) (te s) (te s1) /\ neutral (g s) c1 /\
+    (g s <= g s1)%nat /\ te_agree (g s) (te s) (te s1) /\
+    (forall m, fresh m (g s) -> seek_mem lty c1 m = sseek stmt m) /\
+    Forall (at_time t mask) c1 /\ (is_silent stmt = false -> touches c1) /\
     match stmt with SLabel l => c1 = [LLabel t l] | _ => labels_in (g s) (g s1) c1 end.
   Proof.
     intros Hl Hwf Ha.
     assert (Hone : forall i, Ok ([LInstr t mask i], s) = Ok (c1, s1) ->
-              (g s <= g s1)%nat /\ te_agree (g s) (te s) (te s1) /\ neutral (g s) c1 /\ labels_in (g s) (g s1) c1).
-    { intros i H. inversion H; subst. split; [lia|]. split; [apply te_agree_refl_|]. split; [apply neutral_instr | repeat constructor]. }
+              (g s <= g s1)%nat /\ te_agree (g s) (te s) (te s1) /\ (forall m, fresh m (g s) -> seek_mem lty c1 m = m) /\
+              Forall (at_time t mask) c1 /\ touches c1 /\ labels_in (g s) (g s1) c1).
+    { intros i H. inversion H; subst. split; [lia|]. split; [apply te_agree_refl_|]. split; [intros; reflexivity|].
+      split; [repeat constructor|]. split; [reflexivity | repeat constructor]. }
+    assert (Hlow : forall c, lower t mask fuel c s = Ok (c1, s1) ->
+              (g s <= g s1)%nat /\ te_agree (g s) (te s) (te s1) /\ (forall m, fresh m (g s) -> seek_mem lty c1 m = m) /\
+              Forall (at_time t mask) c1 /\ touches c1 /\ labels_in (g s) (g s1) c1).
+    { intros c H. destruct (lower_shape avail auto_casts rty lty t mask fuel c s c1 s1 H) as [G [L [N A]]].
+      split; [exact G|]. split; [exact A|]. split; [exact N|]. split; [eapply lower_times; exact H|].
+      split; [eapply lower_touches; exact H | exact L]. }
     destruct stmt as [v aop e|ty0 vars|k c l jt|l jt|l|opc args|d|e|]; cbn [wf_stmt] in Hwf; try contradiction;
-      cbn [Lower.lower_stmt] in Hl.
-    - destruct (lower_shape avail auto_casts rty lty t mask fuel _ s c1 s1 Hl) as [G [L [N A]]]. auto.
+      cbn [Lower.lower_stmt] in Hl; cbn [LowerProg.sseek is_silent].
+    - destruct (Hlow _ Hl) as [G [A [N [Ht [Hx L]]]]]. auto 8.
     - assert (Hc : forall v op, lower_count_jump t mask k v op l jt s = Ok (c1, s1) ->
-                (g s <= g s1)%nat /\ te_agree (g s) (te s) (te s1) /\ neutral (g s) c1 /\ labels_in (g s) (g s1) c1).
-      { intros v op H. destruct (count_static t mask k v op l jt s c1 s1 H) as [_ [_ [_ [L [N [G E]]]]]].
-        split; [exact G|]. split; [rewrite E; apply te_agree_refl_|]. split; assumption. }
+                (g s <= g s1)%nat /\ te_agree (g s) (te s) (te s1) /\ (forall m, fresh m (g s) -> seek_mem lty c1 m = m) /\
+                Forall (at_time t mask) c1 /\ (false = false -> touches c1) /\ labels_in (g s) (g s1) c1).
+      { intros v op H. destruct (count_static t mask k v op l jt s c1 s1 H) as [Ht [_ [Hx [L [N [G E]]]]]].
+        split; [exact G|]. split; [rewrite E; apply te_agree_refl_|]. split; [exact N|]. split; [exact Ht|]. split; [intros _; exact Hx | exact L]. }
       destruct c as [v|v op|e].
       + eapply Hc. exact Hl.
       + destruct op; try discriminate; eapply Hc; exact Hl.
-      + destruct (lower_shape avail auto_casts rty lty t mask fuel _ s c1 s1 Hl) as [G [L [N A]]]. auto.
-    - unfold need, instr, ret in Hl. destruct (avail KJmp); [|discriminate]. eapply Hone. exact Hl.
-    - unfold ret in Hl. inversion Hl; subst. split; [lia|]. split; [apply te_agree_refl_|]. split; [apply neutral_label | reflexivity].
-    - destruct (lower_args_simple n0 t mask fuel s Ha args Hwf) as [la [El _]]. rewrite El in Hl. cbn [app map rev] in Hl. eapply Hone. exact Hl.
-    - destruct e; try discriminate. unfold need, instr, ret in Hl. destruct (avail KInterrupt); [|discriminate]. eapply Hone. exact Hl.
+      + destruct (Hlow _ Hl) as [G [A [N [Ht [Hx L]]]]]. auto 8.
+    - unfold need, instr, ret in Hl. destruct (avail KJmp); [|discriminate]. destruct (Hone _ Hl) as [G [A [N [Ht [Hx L]]]]]. auto 8.
+    - unfold ret in Hl. inversion Hl; subst. split; [lia|]. split; [apply te_agree_refl_|]. split; [intros; reflexivity|].
+      split; [repeat constructor|]. split; [intros _; reflexivity | reflexivity].
+    - destruct (lower_args_simple n0 t mask fuel s Ha args Hwf) as [la [El _]]. rewrite El in Hl. cbn [app map rev] in Hl.
+      destruct (Hone _ Hl) as [G [A [N [Ht [Hx L]]]]]. auto 8.
+    - destruct e; try discriminate. unfold need, instr, ret in Hl. destruct (avail KInterrupt); [|discriminate].
+      destruct (Hone _ Hl) as [G [A [N [Ht [Hx L]]]]]. auto 8.
   Qed.
 
   Notation lower_body := (lower_body avail auto_casts rty lty).
@@ -652,8 +682,7 @@ Section Sim.
   Notation sprog := (sprog T libm rty lty diff dsel true).
   Notation wprog := (wprog T libm lty dsel).
 
-  Definition wf_body (n0 : nat) (body : list (Z * Z * sstmt)) : Prop :=
-    Forall (fun x => wf_stmt n0 (snd x) /\ runs dsel (snd (fst x)) = true) body.
+  Definition wf_body (n0 : nat) (body : list (Z * Z * sstmt)) : Prop := Forall (fun x => wf_stmt n0 (snd x)) body.
   Definition mode_user (md : mode) : Prop := match md with Exec => True | Seek l _ => user l end.
 
   Lemma lower_body_cons fuel t mask stmt rest s code s' :
@@ -663,6 +692,11 @@ Section Sim.
     cbn [LowerProg.lower_body]. destruct (lower_stmt t mask fuel stmt s) as [[c1 s1]| | |] eqn:E1; try discriminate.
     destruct (lower_body fuel rest s1) as [[c2 s2]| | |] eqn:E2; try discriminate. intros H. inversion H; subst.
     exists c1, s1, c2. split; [reflexivity|]. split; [exact E2 | reflexivity].
+  Qed.
+
+  Lemma sseek_fresh n0 stmt m : wf_stmt n0 stmt -> fresh m n0 -> fresh (sseek stmt m) n0.
+  Proof.
+    intros Hwf Hfr. destruct stmt; cbn [wf_stmt] in Hwf; try contradiction; cbn [LowerProg.sseek]; exact Hfr.
   Qed.
 
   (* one pass over the body (from any statement boundary, executing or seeking a user label) *)
@@ -675,39 +709,53 @@ Section Sim.
     - cbn in Hl. inversion Hl; subst. cbn in Hs. inversion Hs; subst. split; [|split; assumption].
       intros cmp. exists cmp. reflexivity.
     - destruct (lower_body_cons fuel t mask stmt rest s code s' Hl) as [c1 [s1 [c2 [Hl1 [Hl2 ->]]]]].
-      pose proof (Forall_inv Hwf) as [Hw1 Hr1]. cbn [fst snd] in Hw1, Hr1. pose proof (Forall_inv_tail Hwf) as Hwf'.
-      destruct (stmt_shape n0 t mask fuel stmt s c1 s1 Hl1 Hw1 Ha) as [G [A [N L]]].
+      pose proof (Forall_inv Hwf) as Hw1. cbn [snd] in Hw1. pose proof (Forall_inv_tail Hwf) as Hwf'.
+      destruct (stmt_shape n0 t mask fuel stmt s c1 s1 Hl1 Hw1 Ha) as [G [A [N [Hat [Htouch L]]]]].
       assert (Hn1 : (n0 <= g s1)%nat) by lia.
       assert (Ha1 : te_agree n0 [] (te s1)).
       { intros d Hd. rewrite (A d) by lia. apply Ha. exact Hd. }
+      assert (Hfs : fresh (p_mem st) (g s)) by (eapply fresh_mono; eassumption).
       cbn [LowerProg.sblk] in Hs.
       destruct md as [|l jt].
       + (* executing *)
         cbn [andb] in Hs. destruct (Z.ltb_spec t (p_time st)) as [Hlt|Hle]; [discriminate|].
-        rewrite Hr1 in Hs. cbn [negb] in Hs.
-        destruct (stmt_nonan T libm rty lty diff stmt (p_mem (wait t st))) eqn:Hnn; cbn [negb] in Hs; [|discriminate].
-        destruct (sstep stmt (p_mem (wait t st))) as [[[m' j] lg]| | |] eqn:Est; try discriminate.
-        assert (Hfs : fresh (p_mem st) (g s)) by (eapply fresh_mono; eassumption).
-        destruct (stmt_sim n0 t mask fuel stmt s c1 s1 st m' j lg Hr1 Hl1 Hw1 Hn Ha Hfs Hle Hnn Est) as [Hrun _].
-        assert (Hfr' : fresh (p_mem (logged lg (set_mem (wait t st) m'))) n0).
-        { rewrite logged_mem. cbn [p_mem set_mem]. eapply sstep_fresh; [exact Hw1| |exact Est]. rewrite wait_mem. exact Hfr. }
-        assert (Hmd' : mode_user (mode_of j)).
-        { destruct j as [[l jt]|]; [|exact I]. cbn. eapply sstep_jump_user; eassumption. }
-        destruct (IH s1 c2 s' Hl2 Hwf' Hn1 Ha1 _ _ md' st' Hmd' Hfr' Hs) as [Hrest [Hf' Hm']].
-        split; [|split; assumption].
-        intros cmp. rewrite wblk_app. destruct (Hrun cmp) as [c' E]. rewrite E. apply Hrest.
+        destruct (is_silent stmt && (p_time st <? t)) eqn:Esil; [discriminate|].
+        assert (Hentry : forall cmp, wblk c1 Exec st cmp = wblk c1 Exec (wait t st) cmp).
+        { intros cmp. destruct (is_silent stmt) eqn:Es.
+          - cbn [andb] in Esil. apply Z.ltb_ge in Esil. rewrite wait_at by lia. reflexivity.
+          - apply (wblk_entry T libm lty dsel t mask c1 st cmp Hat). apply Htouch. reflexivity. }
+        assert (Hsil : is_silent stmt = true -> p_time st = t).
+        { intros Es. rewrite Es in Esil. cbn [andb] in Esil. apply Z.ltb_ge in Esil. lia. }
+        destruct (runs dsel mask) eqn:Hr1; cbn [negb] in Hs.
+        * destruct (stmt_nonan T libm rty lty diff stmt (p_mem (wait t st))) eqn:Hnn; cbn [negb] in Hs; [|discriminate].
+          destruct (sstep stmt (p_mem (wait t st))) as [[[m' j] lg]| | |] eqn:Est; try discriminate.
+          destruct (stmt_sim n0 t mask fuel stmt s c1 s1 st m' j lg Hr1 Hl1 Hw1 Hn Ha Hfs Hle Hsil Hnn Est) as [Hrun _].
+          assert (Hfr' : fresh (p_mem (logged lg (set_mem (wait t st) m'))) n0).
+          { rewrite logged_mem. cbn [p_mem set_mem]. eapply sstep_fresh; [exact Hw1| |exact Est]. rewrite wait_mem. exact Hfr. }
+          assert (Hmd' : mode_user (mode_of j)).
+          { destruct j as [[l jt]|]; [|exact I]. cbn. eapply sstep_jump_user; eassumption. }
+          destruct (IH s1 c2 s' Hl2 Hwf' Hn1 Ha1 (mode_of j) _ md' st' Hmd' Hfr' Hs) as [Hrest [Hf' Hm']].
+          split; [|split; assumption].
+          intros cmp. rewrite wblk_app. destruct (Hrun cmp) as [c' E]. rewrite E. apply Hrest.
+        * (* disabled on this difficulty: waits, markers *)
+          assert (Hfr' : fresh (p_mem (set_mem (wait t st) (sseek stmt (p_mem (wait t st))))) n0).
+          { cbn [p_mem set_mem]. apply sseek_fresh; [exact Hw1|]. rewrite wait_mem. exact Hfr. }
+          destruct (IH s1 c2 s' Hl2 Hwf' Hn1 Ha1 Exec _ md' st' I Hfr' Hs) as [Hrest [Hf' Hm']].
+          split; [|split; assumption].
+          intros cmp. rewrite wblk_app, Hentry.
+          rewrite (wblk_off T libm lty dsel t mask Hr1 c1 (wait t st) cmp Hat (wait_time t st Hle)).
+          rewrite (N (p_mem (wait t st))) by (rewrite wait_mem; exact Hfs). apply Hrest.
       + (* seeking the user label l *)
         cbn [mode_user] in Hmd.
-        assert (Hskip : forall c1', (forall m, fresh m (g s) -> seek_mem lty c1' m = m) -> Forall (not_label l) c1' ->
-                  forall cmp, wblk c1' (Seek l jt) st cmp = Ok (Seek l jt, st, cmp)).
-        { intros c1' N' L' cmp. rewrite (wblk_seek T libm lty dsel l jt c1' st cmp L').
-          rewrite N' by (eapply fresh_mono; eassumption). rewrite set_mem_id. reflexivity. }
-        assert (Hother : sblk rest (Seek l jt) st = Ok (md', st') -> labels_in (g s) (g s1) c1 ->
+        assert (Hother : sblk rest (Seek l jt) (set_mem st (sseek stmt (p_mem st))) = Ok (md', st') -> labels_in (g s) (g s1) c1 ->
                   (forall cmp, exists c', wblk (c1 ++ c2) (Seek l jt) st cmp = Ok (md', st', c')) /\ fresh (p_mem st') n0 /\ mode_user md').
         { intros Hs' L'.
-          destruct (IH s1 c2 s' Hl2 Hwf' Hn1 Ha1 (Seek l jt) st md' st' Hmd Hfr Hs') as [Hrest [Hf' Hm']].
+          assert (Hfr' : fresh (p_mem (set_mem st (sseek stmt (p_mem st)))) n0).
+          { cbn [p_mem set_mem]. apply sseek_fresh; assumption. }
+          destruct (IH s1 c2 s' Hl2 Hwf' Hn1 Ha1 (Seek l jt) _ md' st' Hmd Hfr' Hs') as [Hrest [Hf' Hm']].
           split; [|split; assumption]. intros cmp. rewrite wblk_app.
-          rewrite (Hskip c1 N (labels_in_not_user _ _ _ _ L' Hmd) cmp). apply Hrest. }
+          rewrite (wblk_seek T libm lty dsel l jt c1 st cmp (labels_in_not_user _ _ _ _ L' Hmd)).
+          rewrite (N (p_mem st) Hfs). apply Hrest. }
         destruct stmt as [v aop e|ty0 vars|k c l0 jt0|l0 jt0|l0|opc args|d|e|]; try (apply Hother; assumption).
         subst c1. destruct (label_eqb l l0) eqn:E.
         * assert (Hfr' : fresh (p_mem (arrive t jt st)) n0) by (rewrite arrive_mem; exact Hfr).
@@ -731,13 +779,13 @@ Section Sim.
     intros Hu. induction body as [|[[t mask] stmt] rest IH]; intros s code s' Hl Hwf Ha Hn.
     - cbn in Hl. inversion Hl. reflexivity.
     - destruct (lower_body_cons fuel t mask stmt rest s code s' Hl) as [c1 [s1 [c2 [Hl1 [Hl2 ->]]]]].
-      pose proof (Forall_inv Hwf) as [Hw1 Hr1]. cbn [fst snd] in Hw1, Hr1. pose proof (Forall_inv_tail Hwf) as Hwf'.
-      destruct (stmt_shape n0 t mask fuel stmt s c1 s1 Hl1 Hw1 Ha) as [G [A [N L]]].
+      pose proof (Forall_inv Hwf) as Hw1. cbn [snd] in Hw1. pose proof (Forall_inv_tail Hwf) as Hwf'.
+      destruct (stmt_shape n0 t mask fuel stmt s c1 s1 Hl1 Hw1 Ha) as [G [A [N [Hat [Htouch L]]]]].
       assert (Ha1 : te_agree n0 [] (te s1)).
       { intros d Hd. rewrite (A d) by lia. apply Ha. exact Hd. }
       cbn [existsb]. rewrite existsb_app. rewrite (IH s1 c2 s' Hl2 Hwf' Ha1) by lia. f_equal.
       unfold is_slabel. cbn [snd].
-      destruct stmt; try (symmetry; eapply labels_in_no_user; eassumption).
+      destruct stmt; try (cbn; symmetry; eapply labels_in_no_user; eassumption).
       subst c1. cbn. rewrite Bool.orb_false_r. reflexivity.
   Qed.
 
